@@ -68,6 +68,8 @@ def format_items(sample, wd):
         k += 1
         items.append({"k": k, "files": [rej, p], "of": "vsg", "cfg": None, "cfgname": "rejected-first"})
         k += 1
+        items.append({"k": k, "files": [p, sample[(i + 1) % len(sample)]], "of": "vsg", "cfg": None, "cfgname": "relative-paths", "pathstyle": "rel"})
+        k += 1
         items.append({"k": k, "files": [p], "of": "vsg", "cfg": {"rule": {"no_such_rule_001": {"disable": True}}}, "cfgname": "unknown-rule"})
     return items
 
